@@ -44,6 +44,7 @@ TRUSTED = [
     ("N-argmin", "numpy.argmin of a scalar is 0; of a 1-D array the first index of a minimal entry"),
     ("N-broadcast", "array - vector subtracts the vector from every row; scalar * array scales every entry; array[i] is row i"),
     ("T-ray", "mesh.ray.intersects_location(origins, directions, multiple_hits=False) returns the first hit of each ray that hits the mesh, in the order of the rays; a hit of ray (o, d) is o + t d with t >= 0"),
+    ("N-reduce", "numpy.all / any / max reduce over all entries; array > scalar compares entry-wise; ndarray - Vector converts the Vector to a length-3 array and broadcasts"),
     ("T-bounds", "every point of a trimesh mesh lies within mesh.bounds; extents = bounds[1] - bounds[0]; bounding_box.center_mass is the midpoint of the bounds"),
     ("A2-pythagoras", "sin(x)^2 + cos(x)^2 = 1"),
     ("A2-shift", "cos(x) = -sin(x - pi/2) and sin(x) = cos(x - pi/2) (pi/2 is the float math.pi/2, A1)"),
@@ -65,6 +66,14 @@ def install(reg):
     reg.len_fallback = _len_fallback
     reg.iterate_fallback = _iterate_fallback
     reg.compare_fallback = _compare_fallback
+    for dn, sym in (("__rsub__", "-"), ("__radd__", "+")):
+        def reflected(I, self, other, dn=dn, sym=sym):
+            if isinstance(other, NDArr):  # ndarray.__sub__(Vector): the Vector is converted to an array (it is a Sequence)
+                return nd_binop(I, sym, other, self)
+            f = I.find_method(self.cls, dn)
+            return I.run_function(f, [self, other], {}, None)
+
+        reg.models[f"scenic.core.vectors:Vector.{dn}"] = reflected
     reg.models["scenic.core.geometry:sin"] = lambda I, x: sin(I, x)
     reg.models["scenic.core.geometry:cos"] = lambda I, x: cos(I, x)
     reg.models["scenic.core.geometry:hypot"] = lambda I, *xs: BM.mhypot(I, *xs)
@@ -656,6 +665,14 @@ def _iterate_fallback(I, obj):
 
 
 def _compare_fallback(I, sym, a, b):
+    if isinstance(a, NDArr) or isinstance(b, NDArr):
+        A, B = to_ndarr(I, a), to_ndarr(I, b)
+        if not B.shape:
+            return _map(A, lambda x: compare(sym, x, B.data)) if A.shape else compare(sym, A.data, B.data)
+        if not A.shape:
+            return _map(B, lambda y: compare(sym, A.data, y))
+        if A.shape == B.shape and len(A.shape) == 1:
+            return NDArr(A.shape, [compare(sym, x, y) for x, y in zip(A.data, B.data)])
     raise PyvcError(f"comparison {sym} of {a!r} and {b!r} not modelled")
 
 
@@ -665,6 +682,8 @@ def _compare_fallback(I, sym, a, b):
 
 class NDArr:
     """numpy array of known shape: 0-d (scalar), 1-d (list of scalars) or 2-d (list of rows)."""
+
+    elementwise = True  # comparisons with arrays are arrays (interp.ex_Compare passes them through)
 
     def __init__(self, shape, data):
         self.shape = tuple(shape)
@@ -828,6 +847,31 @@ def _make_numpy(I):
             return NDArr((A.shape[1],), [BM.mmax(I, *c) if len(c) > 1 else c[0] for c in zip(*A.data)])
         raise PyvcError("numpy.amax form not modelled")
 
+    def np_all(x, axis=None):
+        if isinstance(x, (bool, SV)):
+            return x
+        A = to_ndarr(I, x)
+        flat = [A.data] if not A.shape else (list(A.data) if len(A.shape) == 1 else [v for r in A.data for v in r])
+        return sv_and(*flat) if flat else True
+
+    def np_any(x, axis=None):
+        if isinstance(x, (bool, SV)):
+            return x
+        A = to_ndarr(I, x)
+        flat = [A.data] if not A.shape else (list(A.data) if len(A.shape) == 1 else [v for r in A.data for v in r])
+        return sv_or(*flat) if flat else False
+
+    def np_max(x, axis=None):
+        if is_scalar(x):
+            return x
+        A = to_ndarr(I, x)
+        if axis is not None:
+            return amax(x, axis)
+        flat = [A.data] if not A.shape else (list(A.data) if len(A.shape) == 1 else [v for r in A.data for v in r])
+        if not flat:
+            I.raise_("ValueError", "zero-size array to reduction operation maximum which has no identity")
+        return BM.mmax(I, *flat) if len(flat) > 1 else flat[0]
+
     linalg = NativeModule("numpy.linalg", {"norm": BuiltinFn("numpy.linalg.norm", norm)})
     nd = BuiltinFn("numpy.ndarray", lambda *a, **k: (_ for _ in ()).throw(PyvcError("numpy.ndarray() not modelled")))
     nd.pytype = NDArr
@@ -840,6 +884,9 @@ def _make_numpy(I):
             "argmin": BuiltinFn("numpy.argmin", argmin),
             "amin": BuiltinFn("numpy.amin", amin),
             "amax": BuiltinFn("numpy.amax", amax),
+            "all": BuiltinFn("numpy.all", np_all),
+            "any": BuiltinFn("numpy.any", np_any),
+            "max": BuiltinFn("numpy.max", np_max),
             "ndarray": nd,
             "newaxis": None,
         },
@@ -910,10 +957,20 @@ def make_mesh(I, tag="mesh"):
 
 
 def _make_trimesh(I):
-    return NativeModule("trimesh", {})
+    def proximity_query(mesh):
+        q = PObj("ProximityQuery")
+        q.fields["signed_distance"] = BuiltinFn("signed_distance", lambda pts: mesh.fields["_signed_distance"](pts))
+        return q
+
+    def volume_mesh(mesh, count):
+        return mesh.fields["_volume_sample"](count)
+
+    proximity = NativeModule("trimesh.proximity", {"ProximityQuery": BuiltinFn("ProximityQuery", proximity_query)})
+    sample = NativeModule("trimesh.sample", {"volume_mesh": BuiltinFn("volume_mesh", volume_mesh)})
+    return NativeModule("trimesh", {"proximity": proximity, "sample": sample})
 
 
-EXTRA_MODULES.setdefault("trimesh", _make_trimesh)
+EXTRA_MODULES["trimesh"] = _make_trimesh
 
 
 # ------------------------------------------------------------------------------------------------
